@@ -99,7 +99,7 @@ func (g *G) DocFor(p *Path) *DNode {
 			d = g.perturb(d)
 		}
 	}
-	return d
+	return Trim(d, MaxDocNodes)
 }
 
 func (g *G) tail() *DNode {
@@ -580,13 +580,44 @@ func (g *G) perturb(d *DNode) *DNode {
 	return d
 }
 
-// Doc draws a document for p: 60 % path-directed, 40 % free.
+// MaxDocNodes bounds generated documents (DESIGN: documents <= ~200 nodes). Nested filters
+// with "$.."-operands make evaluation polynomial in the document size with a high degree;
+// the bound keeps a case in the millisecond range.
+const MaxDocNodes = 160
+
+// Trim keeps at most budget nodes (breadth-first), replacing what is cut by null leaves /
+// shortened containers.
+func Trim(d *DNode, budget int) *DNode {
+	if d.Size() <= budget {
+		return d
+	}
+	d = d.Clone()
+	queue := []*DNode{d}
+	used := 1
+	for len(queue) > 0 {
+		n := queue[0]
+		queue = queue[1:]
+		keep := 0
+		for keep < len(n.Kids) && used < budget {
+			keep++
+			used++
+		}
+		n.Kids = n.Kids[:keep]
+		if n.K == DObj {
+			n.Keys = n.Keys[:keep]
+		}
+		queue = append(queue, n.Kids...)
+	}
+	return d
+}
+
+// Doc draws a document for p: 72 % path-directed, 28 % free; at most MaxDocNodes nodes.
 func (g *G) Doc(p *Path) *DNode {
 	if g.chance("directed", 72) {
-		return g.DocFor(p)
+		return Trim(g.DocFor(p), MaxDocNodes)
 	}
 	g.DocKind = "free"
-	return g.FreeDoc(4)
+	return Trim(g.FreeDoc(4), MaxDocNodes)
 }
 
 // Opaquify replaces a random non-empty subset of leaves (and sometimes whole
